@@ -646,7 +646,7 @@ class SimFS:
         import builtins
         import io as _io
         fs = self
-        fs.roots = set(roots) | {"md", "repo", "keys", "net", "ceremony", "cli", "c0", "c1", "w0", "w1", "w2", "w3"}
+        fs.roots = set(roots) | {"md", "repo", "keys", "net", "ceremony", "cli", "c0", "c1", "c2", "c3", "w0", "w1", "w2", "w3", "w4", "w5"}
         for mod in lib.modules:
             patcher.set(mod, "open", fs.open)
         real_open = builtins.open
